@@ -1,6 +1,7 @@
 """Seeded generator and run/replay entry points of the store simulator."""
 from __future__ import annotations
 
+import os
 import random
 
 from simkit.seeds import derive
@@ -34,6 +35,11 @@ def draw_config(rng: random.Random, prop: str) -> dict:
     cfg['species_mode'] = rng.choice(['first_k', 'gaps', 'tail', 'single', 'all', 'per_field',
                                       'per_traj'])
     cfg['unset_p'] = rng.choice([0.0, 0.3, 1.0])
+    # collector schedule (fault kind gc_inside_operation): in a third of the runs nothing is
+    # collected between operations and a seeded fraction of the operations run with the automatic
+    # collector armed to fire after a seeded number of allocations
+    gp = os.environ.get('VERIF_GC_P')
+    cfg['gc_p'] = rng.choice([0.0, float(gp)]) if gp else rng.choice([0.0, 0.0, 0.3])
     cfg['new_species_p'] = rng.choice([0.0, 0.0, 0.15]) if prop in ('C03', 'C10') else 0.0
     cfg['file_species_p'] = rng.choice([0.0, 0.5]) if prop in ('C09', 'C03') else 0.0
     w = {
@@ -712,6 +718,7 @@ def run(prop: str, base_seed: int, run_index: int, hashseed: int, tier: str = 'q
     cfg = draw_config(rng, prop)
     sandbox = make_sandbox(f'{prop}-{run_index}')
     sim = StoreSim(sandbox, hashseed)
+    sim.gc_lazy = bool(cfg.get('gc_p'))
     gen = Gen(rng, cfg, sim)
     violation = None
     try:
@@ -722,6 +729,8 @@ def run(prop: str, base_seed: int, run_index: int, hashseed: int, tier: str = 'q
                 op = gen.next_op()
                 if op is None:
                     continue
+                if cfg.get('gc_p') and rng.random() < cfg['gc_p']:
+                    op['gc_k'] = rng.choice([1, 2, 3, 5, 8, 13, 21, 50, 100, 300, 700, rng.randint(1, 3000)])
                 sim.step(op)
             # closing audit: close everything, fsck every plain file
             for sid in list(sim.sessions):
@@ -740,6 +749,7 @@ def run(prop: str, base_seed: int, run_index: int, hashseed: int, tier: str = 'q
 def replay(prop: str, ops: list, hashseed: int, tag: str = 'replay') -> dict:
     sandbox = make_sandbox(f'{prop}-{tag}')
     sim = StoreSim(sandbox, hashseed)
+    sim.gc_lazy = any(op.get('gc_k') for op in ops)
     violation = None
     try:
         try:
@@ -810,13 +820,16 @@ def evidence_info(prop):
             'real': ['AEIC TrajectoryStore / Trajectory / FieldSet code', 'netCDF4 + HDF5 on real files in a per-run '
                      'sandbox under /dev/shm (variable-level I/O is real and un-faulted)', 'cachetools LRU cache'],
             'simulated': ['operation order, arguments and data content (seeded generator)', 'cache capacity knob',
-                          'wall clock (store.datetime shim)', 'garbage-collection timing (automatic GC off, collection '
-                          'after every operation)'] + (
+                          'wall clock (store.datetime shim)', 'garbage-collection timing (automatic GC off; either a '
+                          'collection after every operation, or - fault kind gc_inside_operation - none between '
+                          'operations and the collector armed to fire after a seeded number of allocations inside '
+                          'seeded operations)'] + (
                 ['os.mkdir/rename/... , open and netCDF4.Dataset create/close (pass-through + injected error / crash; '
                  'buffered metadata file with torn / lost / full outcomes; index file truncated / removed / intact after '
                  'a crash)'] if prop == 'C10' else []),
         },
-        'fault_kinds': ['error', 'crash', 'crash_torn', 'crash_lost', 'crash_truncated', 'crash_removed'] if prop == 'C10' else [],
+        'fault_kinds': (['error', 'crash', 'crash_torn', 'crash_lost', 'crash_truncated', 'crash_removed']
+                        if prop == 'C10' else []) + ['gc_inside_operation'],
         'assumptions': ['one session per file at a time, all driven from one thread',
                         'NaN, zero-length trajectories, empty species sets and caches smaller than one trajectory are not generated',
                         'HDF5 internals are not faulted; process death without close() is not simulated'],
